@@ -299,6 +299,8 @@ class TFolder(Folder):
             return env["__this__"]
         if k == "Char":
             return chr(n["v"])
+        if k == "PredefinedExpr":
+            return n.get("v") if isinstance(n.get("v"), str) else "<function name>"     # __func__ in assertion macros
         if k == "Member" and n.get("n") == "npos":
             return Num(Fraction(NPOS))
         if k == "Ref" and n.get("n") == "npos" and n.get("dk") == "smember":
@@ -1012,6 +1014,343 @@ def check_alias_identity(ck, facts, folder_proto, rules, degrees, shape_of, tier
                   sample={"alias": alias, "answered_with": r2.name, "points": r2.n, "oracle": [drv, pts, deg]})
 
 
+# -------------------------------------------------------------------------------------------------
+# token containers of the name-parsing code (E7.token-access)
+# -------------------------------------------------------------------------------------------------
+TOKEN_TY = re.compile(r"^(const )?std::(deque|vector|list)<\s*(FEAT::)?String\b")
+NEED1 = ("front", "back", "pop_back", "pop_front")
+GROW = ("push_back", "push_front", "emplace_back", "emplace_front")
+SIZE_NEUTRAL = ("size", "empty", "max_size", "capacity", "shrink_to_fit", "get_allocator")
+ITERS = ("begin", "end", "rbegin", "rend", "cbegin", "cend", "crbegin", "crend", "data")
+
+
+class _TokenSizes:
+    """Path-sensitive lower bounds on the sizes of the token containers (std::deque/vector of String) of one function: a walk
+    over the statement tree; state = {decl: [lower bound, epoch, net growth since the epoch]}; branches are joined by the minimum,
+    conditions refine the bound by polarity (`!`, `&&`, `||`, size()/empty() comparisons, const locals holding a size),
+    pop_*/push_* are counted.  Every access that needs elements is reported with the bound known there."""
+
+    def __init__(self, fn):
+        self.fn = fn
+        self.cont = {}
+        for n in fn.nodes():
+            if n.get("k") == "Var" and TOKEN_TY.match(fn.type(n["t"]) or ""):
+                self.cont[n["d"]] = n
+        for p_ in fn.params:
+            if TOKEN_TY.match((fn.type(p_["t"]) or "").replace("&", "").strip()) and not (fn.type(p_["t"]) or "").lstrip().startswith("const "):
+                self.cont[p_["d"]] = p_
+        self.order = {d: i for i, d in enumerate(sorted(self.cont, key=lambda d: (self.cont[d].get("l", 0), d)))}
+        self.sites = {}        # node id -> [need, least bound seen, container decl, op text, line]
+        self.unmodelled = []   # (text, line)
+        self.sizevars = {}     # decl of a local holding c.size() -> (container decl, epoch, growth at that time)
+
+    # ---- helpers
+    @staticmethod
+    def strip(n):
+        while n is not None and n.get("k") == "Cast":
+            n = n["e"]
+        while n is not None and n.get("k") in ("Construct", "TempObj") and len(n.get("a", [])) == 1 and n.get("ccls", "") in ("std::size_t", "unsigned long", "FEAT::Index"):
+            n = n["a"][0]
+        return n
+
+    def cref(self, n):
+        n = self.strip(n)
+        return n["d"] if n is not None and n.get("k") == "Ref" and n.get("d") in self.cont else None
+
+    def const(self, n):
+        n = self.strip(n)
+        if n is None:
+            return None
+        if n.get("k") == "Int":
+            return int(n["v"])
+        if n.get("k") == "Ref" and "v" in n:
+            return int(n["v"])
+        return None
+
+    def size_of(self, n, st):
+        """n denotes the current size of a container (plus an offset): -> (decl, offset) with size_now = value - offset ... or None"""
+        n = self.strip(n)
+        if n is None:
+            return None
+        if n.get("k") == "MCall" and n.get("n") == "size":
+            d = self.cref(n.get("obj"))
+            return (d, 0) if d is not None else None
+        if n.get("k") == "Ref" and n.get("d") in self.sizevars:
+            d, ep, gr = self.sizevars[n["d"]]
+            cur = st.get(d)
+            if cur is not None and cur[1] == ep:
+                return (d, cur[2] - gr)          # size_now = n + (growth since n was taken)
+        return None
+
+    @staticmethod
+    def join(a, b):
+        if a is None:
+            return b
+        if b is None:
+            return a
+        out = {}
+        for d in set(a) | set(b):
+            x, y = a.get(d), b.get(d)
+            if x is None or y is None:
+                out[d] = [0, -1, 0]
+            elif x[1] == y[1] and x[2] == y[2]:
+                out[d] = [min(x[0], y[0]), x[1], x[2]]
+            else:
+                out[d] = [min(x[0], y[0]), -1 - abs(hash((x[1], y[1], x[2], y[2]))) % 10 ** 6, 0]
+        return out
+
+    @staticmethod
+    def copy(st):
+        return None if st is None else {d: list(v) for d, v in st.items()}
+
+    def raise_lb(self, st, d, k):
+        if d in st and k > st[d][0]:
+            st[d][0] = k
+
+    def refine(self, c, pol, st):
+        """state on the paths where condition c has truth value pol"""
+        st = self.copy(st)
+        c = self.strip(c)
+        if c is None or st is None:
+            return st
+        k = c.get("k")
+        if k == "Un" and c.get("op") == "!":
+            return self.refine(c["e"], not pol, st)
+        if k == "Bin" and c.get("op") in ("&&", "||"):
+            if (c["op"] == "&&") == pol:
+                return self.refine(c["rhs"], pol, self.refine(c["lhs"], pol, st))
+            return self.join(self.refine(c["lhs"], pol, st), self.refine(c["rhs"], pol, self.refine(c["lhs"], not pol, st)))
+        if k == "MCall" and c.get("n") == "empty":
+            d = self.cref(c.get("obj"))
+            if d is not None and not pol:
+                self.raise_lb(st, d, 1)
+            return st
+        if k == "Bin" and c.get("op") in ("==", "!=", "<", ">", "<=", ">="):
+            flip = {"<": ">", ">": "<", "<=": ">=", ">=": "<="}
+            neg = {"==": "!=", "!=": "==", "<": ">=", ">": "<=", "<=": ">", ">=": "<"}
+            for a, b, op in ((c["lhs"], c["rhs"], c["op"]), (c["rhs"], c["lhs"], flip.get(c["op"], c["op"]))):
+                so, v = self.size_of(a, st), self.const(b)
+                if so is None or v is None:
+                    continue
+                op = op if pol else neg[op]
+                d, off = so
+                # value (op) v holds, size_now = value + off
+                if op in (">=", "=="):
+                    self.raise_lb(st, d, v + off)
+                elif op == ">":
+                    self.raise_lb(st, d, v + 1 + off)
+                elif op == "!=" and v == 0 and off == 0:
+                    self.raise_lb(st, d, 1)
+                return st
+            return st
+        so = self.size_of(c, st)
+        if so is not None and pol:             # if(c.size())
+            self.raise_lb(st, so[0], 1 + so[1])
+        return st
+
+    def need(self, node, d, k, st, what):
+        lb = st[d][0] if d in st else 0
+        rec = self.sites.setdefault(node["i"], [k, lb, d, what, node.get("l")])
+        rec[1] = min(rec[1], lb)
+
+    def mutate_unknown(self, st, d):
+        if d in st:
+            st[d] = [0, -2, 0]
+
+    def scan(self, n, st):
+        """accesses and mutations of one expression in evaluation order; -> state after it"""
+        n0 = n
+        n = self.strip(n)
+        if n is None or st is None:
+            return st
+        k = n.get("k")
+        if k == "Lambda":
+            for x in featlib.walk(n):
+                d = self.cref(x)
+                if d is not None:
+                    self.unmodelled.append(("token container used inside a lambda", n.get("l")))
+            return st
+        if k == "Bin" and n.get("op") in ("&&", "||"):
+            st = self.scan(n["lhs"], st)
+            side = self.scan(n["rhs"], self.refine(n["lhs"], n["op"] == "&&", st))
+            return self.join(st, side) if side is not None else st
+        if k == "Cond":
+            st = self.scan(n["c"], st)
+            return self.join(self.scan(n["then"], self.refine(n["c"], True, st)), self.scan(n["else"], self.refine(n["c"], False, st)))
+        if k == "MCall" and self.cref(n.get("obj")) is not None:
+            d = self.cref(n["obj"])
+            for a in n.get("a", []):
+                st = self.scan(a, st)
+            nm = n.get("n")
+            if nm in NEED1:
+                self.need(n, d, 1, st, nm + "()")
+                if nm.startswith("pop"):
+                    st = self.copy(st)
+                    st[d][0] = max(0, st[d][0] - 1)
+                    st[d][2] -= 1
+            elif nm == "at" and n.get("a"):
+                self.index(n, d, n["a"][0], st)
+            elif nm in GROW:
+                st = self.copy(st)
+                st[d][0] += 1
+                st[d][2] += 1
+            elif nm in SIZE_NEUTRAL:
+                pass
+            elif nm in ITERS:
+                self.unmodelled.append(("iterator access `%s` to a token container" % featlib.render(n), n.get("l")))
+            else:
+                st = self.copy(st)
+                st[d] = [0, -1 - n["i"], 0]
+            return st
+        if k == "OpCall" and n.get("op") == "[]" and len(n.get("a", [])) == 2 and self.cref(n["a"][0]) is not None:
+            st = self.scan(n["a"][1], st)
+            self.index(n, self.cref(n["a"][0]), n["a"][1], st)
+            return st
+        if k in ("OpCall", "Assign") and n.get("op") == "=":
+            lhs, rhs = (n["a"][0], n["a"][1]) if k == "OpCall" and len(n.get("a", [])) == 2 else (n.get("lhs"), n.get("rhs"))
+            d = self.cref(lhs)
+            if d is not None:
+                st = self.copy(self.scan(rhs, st))
+                st[d] = [0, -1 - n["i"], 0]
+                return st
+        if featlib.is_call(n):
+            pts = [self.fn.type(t) for t in n.get("pt", [])]
+            for i, a in enumerate(n.get("a", [])):
+                d = self.cref(a)
+                if d is not None:
+                    pt = pts[i] if i < len(pts) else ""
+                    if not (pt.lstrip().startswith("const ") or "&" not in pt and "*" not in pt):
+                        st = self.copy(st)
+                        st[d] = [0, -1 - n["i"], 0]
+                else:
+                    st = self.scan(a, st)
+            if n.get("obj") is not None:
+                st = self.scan(n["obj"], st)
+            return st
+        for c in featlib.children(n):
+            st = self.scan(c, st)
+        return st
+
+    def index(self, node, d, idx, st):
+        v = self.const(idx)
+        if v is not None:
+            self.need(node, d, v + 1, st, "[%d]" % v)
+            return
+        i = self.strip(idx)
+        if i is not None and i.get("k") == "Bin" and i.get("op") == "-":
+            so, v = self.size_of(i["lhs"], st), self.const(i["rhs"])
+            if so is not None and so[0] == d and v is not None and v >= 1:
+                self.need(node, d, v - so[1], st, "[size()-%d]" % v)
+                return
+        self.unmodelled.append(("subscript `%s` of a token container with a computed index" % featlib.render(node), node.get("l")))
+
+    def mutated_in(self, n):
+        out = set()
+        for x in featlib.walk(n):
+            if x.get("k") == "MCall" and self.cref(x.get("obj")) is not None and x.get("n") not in SIZE_NEUTRAL + ITERS + ("front", "back", "at"):
+                out.add(self.cref(x["obj"]))
+            if x.get("k") in ("OpCall", "Assign") and x.get("op") == "=":
+                d = self.cref(x["a"][0] if x["k"] == "OpCall" and x.get("a") else x.get("lhs"))
+                if d is not None:
+                    out.add(d)
+        return out
+
+    def run(self, st_node, st):
+        if st_node is None or st is None:
+            return st
+        k = st_node.get("k")
+        if k == "Block":
+            for s_ in st_node.get("s", []):
+                st = self.run(s_, st)
+            return st
+        if k == "Decl":
+            for v in st_node.get("vars", []):
+                if v.get("init") is not None:
+                    st = self.scan(v["init"], st)
+                if st is None:
+                    return None
+                if v["d"] in self.cont:
+                    st = self.copy(st)
+                    init = self.strip(v.get("init"))
+                    st[v["d"]] = [len(init.get("a", [])) if init is not None and init.get("k") == "InitList" else 0, v.get("i", v["d"]), 0]
+                elif v.get("init") is not None and not v.get("ref"):
+                    so = self.size_of(v["init"], st)
+                    if so is not None and so[1] == 0 and so[0] in st:
+                        self.sizevars[v["d"]] = (so[0], st[so[0]][1], st[so[0]][2])
+            return st
+        if k == "If":
+            if st_node.get("init") is not None:
+                st = self.run(st_node["init"], st)
+            st = self.scan(st_node["c"], st)
+            a = self.run(st_node.get("then"), self.refine(st_node["c"], True, st))
+            b = self.refine(st_node["c"], False, st)
+            if st_node.get("else") is not None:
+                b = self.run(st_node["else"], b)
+            return self.join(a, b)
+        if k in ("Return", "Throw"):
+            self.scan(st_node.get("e"), st) if st_node.get("e") is not None else None
+            return None
+        if k in ("Break", "Continue"):
+            return None          # leaves the block; the loop handling below is conservative about what follows the loop
+        if k in ("For", "While", "Do", "ForRange", "Switch"):
+            if st_node.get("init") is not None:
+                st = self.run(st_node["init"], st) if st_node["init"].get("k") == "Decl" else self.scan(st_node["init"], st)
+            if st_node.get("range") is not None:
+                st = self.scan(st_node["range"], st)
+            st = self.copy(st)
+            for d in self.mutated_in(st_node):
+                if d in st:
+                    st[d] = [0, -1 - st_node["i"], 0]
+            inner = st
+            if st_node.get("c") is not None and k in ("For", "While"):
+                inner = self.refine(st_node["c"], True, self.scan(st_node["c"], st))
+            elif st_node.get("c") is not None:
+                self.scan(st_node["c"], st)
+            self.run(st_node.get("body"), self.copy(inner))
+            if st_node.get("inc") is not None:
+                self.scan(st_node["inc"], self.copy(inner))
+            return st
+        if k in ("Case", "Default", "Attributed", "OMP"):
+            return self.run(st_node.get("s") if st_node.get("s") is not None else st_node.get("body"), st)
+        if k == "Try":
+            for c in featlib.children(st_node):
+                st = self.join(st, self.run(c, self.copy(st)))
+            return st
+        if featlib.is_call(st_node) and st_node.get("noreturn"):
+            self.scan(st_node, st)
+            return None
+        return self.scan(st_node, st)
+
+
+def check_token_access(ck, facts):
+    RULE = "E7.token-access"
+    done = set()
+    for f in sorted(facts.functions, key=lambda f: f.full):
+        if f.tk == "pattern" or f.body is None or "/kernel/cubature/" not in f.file:
+            continue
+        src = (f.file, f.line)
+        if src in done:
+            continue         # instantiations of one source function are one instance
+        ts = _TokenSizes(f)
+        if not ts.cont:
+            continue
+        done.add(src)
+        fname = "%s::%s" % (strip_targs(f.cls).replace("FEAT::Cubature::", ""), f.name)
+        ts.run(f.body, {d: [0, -1, 0] for d in ts.cont if ts.cont[d].get("k") != "Var"})
+        for text, line in ts.unmodelled:
+            ck.incomplete(RULE, "%s: %s (line %s) is not modelled" % (fname, text, line))
+        count = {}
+        for nid, (need, lb, d, what, line) in sorted(ts.sites.items(), key=lambda kv: (kv[1][4] or 0, kv[0])):
+            slot = (ts.order[d], what)
+            count[slot] = count.get(slot, 0) + 1
+            key = "%s/tokens#%d.%s#%d" % (fname, ts.order[d] + 1, what, count[slot])
+            var = ts.cont[d].get("n", "?")
+            ok = lb >= need
+            ck.ob(RULE, key, ok, ("`%s.%s` needs %d element(s), established on every path: %d" % (var, what, need, lb)) if ok else
+                  ("`%s.%s` (line %s) needs %d element(s) but on some path only size >= %d is established: the token list is empty/shorter for a malformed name (String::split_by_* "
+                   "returns no token for an empty string), the access is undefined behaviour instead of a refusal" % (var, what, line, need, lb)), f.file, line)
+
+
 def run(tier):
     ck = Check("C14", tier)
     ck.rule("E9.extract", "every (factory, n) entry point of the cubature layer folds to a complete constant table: the rule is created with count(n) points, every point index receives exactly one weight and dim coordinates, none outside the table", 100)
@@ -1031,6 +1370,9 @@ def run(tier):
             "transcribed from the sources the drivers cite: simpson 3, pulcherrima 4, milne-boole 5, 6-point 6, weddle 7 closed Newton-Cotes points; "
             "midpoint = the one-point barycentre rule): driver, point count and degree of exactness of the named formula - a user asking for 'weddle' "
             "otherwise gets a rule that is not exact to the degree the name promises", 31)
+    ck.rule("E7.token-access", "name-parsing code of kernel/cubature: every front()/back()/pop_front()/pop_back()/[k]/at(k) on a token container (std::deque/vector of "
+            "String, e.g. the result of String::split_by_string) happens where the container is known to hold enough elements on every path (size()/empty() tests by polarity, "
+            "pops and pushes counted) - a malformed name (':' , 'auto-degree::3': an empty token splits into no tokens) must be refused, not run into undefined behaviour", 6)
     ck.rule("E7.param-fully-parsed", "every numeric name parameter (point count, refine count, degree) read with String::parse - a prefix parse - is "
             "accepted only if the whole parameter string was validated (digits only), so a malformed name is refused instead of answered with another rule", 4)
 
@@ -1123,6 +1465,7 @@ def run(tier):
         return not problems
 
     range_obs = 0
+    unfolded = set()      # (shape kind, dim) with at least one factory entry that could not be folded: "not a rule" verdicts are not definite there
     for f in sorted(entries, key=lambda f: f.full):
         kind, dim = shape_of(f)
         # factory class -> driver class name()
@@ -1151,6 +1494,7 @@ def run(tier):
                 continue
             except NotConstant as e:
                 ck.incomplete("E9.extract", "%s: not foldable: %s" % (inst, e))
+                unfolded.add((kind, dim))
                 continue
             if variadic and (n < lo or n > hi):
                 if not void_ret:
@@ -1427,6 +1771,9 @@ def run(tier):
             base = parts[0] if parts[0] not in ("tensor", "scalar") else parts[1]
             pn = int(parts[-1]) if parts[-1].isdigit() else 0
             key = (kind, dim, base, pn)
+            if key not in rules and (kind, dim) in unfolded:
+                ck.incomplete("E13.auto-degree", "%s: maps to '%s', and not every factory of this shape could be folded" % (inst, nm))
+                continue
             if key not in rules:
                 ck.ob("E13.auto-degree", inst, False, "auto-degree:%d maps to '%s' which is not a rule the factories create for this shape" % (d, nm), f.file, f.line)
                 continue
@@ -1494,6 +1841,9 @@ def run(tier):
 
     # ---- the natively modelled Rule class conforms to the model
     check_rule_model(ck, facts)
+
+    # ---- token containers are only accessed where they hold enough tokens
+    check_token_access(ck, facts)
 
     # ---- numeric name parameters are validated as a whole --------------------------------------------------
     check_param_fully_parsed(ck, facts)
